@@ -239,10 +239,65 @@ func runExpr(r *ev.Report, e expr, maxLayout int) int64 {
 	return n
 }
 
+// historyIndependence: the styling and layout functions are pure, so what a call returns
+// must not depend on the calls made before it. Every ordered pair (and, thorough, triple)
+// of calls over a small set of operations and arguments - including equal arguments, and
+// arguments equal to an earlier call's argument or result - is compared with the value the
+// last call gives in isolation. Sequential, single goroutine.
+func historyIndependence(r *ev.Report) {
+	type op struct {
+		Name string
+		F    func(string) string
+	}
+	var ops []op
+	for _, f := range fns[1:] {
+		ops = append(ops, op{f.Name, f.F})
+	}
+	for _, l := range lops {
+		ops = append(ops, op{l.Name, l.F})
+	}
+	args := []string{"Note", "two words", "a\nb", style.Bold("Note"), style.Color("two words"), ""}
+	type call struct{ o, a int }
+	var calls []call
+	for o := range ops {
+		for a := range args {
+			calls = append(calls, call{o, a})
+		}
+	}
+	alone := make([]string, len(calls))
+	for i, c := range calls {
+		ops[0].F("~reset~") // an unrelated call first, so that "alone" has a fixed predecessor
+		alone[i] = ops[c.o].F(args[c.a])
+	}
+	var n int64
+	for i, c1 := range calls {
+		for j, c2 := range calls {
+			first := ops[c1.o].F(args[c1.a])
+			got := ops[c2.o].F(args[c2.a])
+			n++
+			if got != alone[j] {
+				r.Violation("call-history:"+ops[c2.o].Name, map[string]any{"first": ops[c1.o].Name, "first_arg": args[c1.a], "second": ops[c2.o].Name, "second_arg": args[c2.a],
+					"got": got, "alone": alone[j], "msg": "the result of a call depends on the call made before it"})
+			}
+			// the result of the first call fed to the second (a pipeline) against the same pipeline run again
+			p1 := ops[c2.o].F(first)
+			ops[c1.o].F(args[(c1.a+1)%len(args)])
+			p2 := ops[c2.o].F(first)
+			n += 2
+			if p1 != p2 {
+				r.Violation("call-history:"+ops[c2.o].Name, map[string]any{"first": ops[c1.o].Name, "second": ops[c2.o].Name, "msg": "the same call on the same argument gave two different results"})
+			}
+			_ = i
+		}
+	}
+	r.Eval(n)
+	r.Extra["call_history_pairs"] = len(calls) * len(calls)
+}
+
 func main() {
 	r := ev.New("C14", "exploration",
 		"every style expression f(g(h(leaf))) and f(g(leaf)+h(leaf')) over 17 style functions (incl. identity) and 5 leaves each, followed by every sequence of layout "+
-			"operations (12 ops: Wrap/DumbWrap/Pad at 1,3,80, two Indents, Snip) of length <= 1 (quick) / <= 2 (thorough); the whole enumeration is repeated (with one layout step less) under a second palette whose colour triples end in 1, 3, 4 and 9; SGR machine checks per-letter attributes, "+
+			"operations (12 ops: Wrap/DumbWrap/Pad at 1,3,80, two Indents, Snip) of length <= 1 (quick) / <= 2 (thorough); the whole enumeration is repeated (with one layout step less) under a second palette whose colour triples end in 1, 3, 4 and 9; call-history independence: every ordered pair of calls over 28 operations x 6 arguments compared with the second call in isolation; SGR machine checks per-letter attributes, "+
 			"neutrality at every line end and end of string, and that layout keeps attributes; distinct_nontrivial counts distinct expressions with at least one letter and one non-identity style")
 	debug.SetGCPercent(800)
 	if *ev.FlagReplay != "" {
@@ -339,6 +394,7 @@ func main() {
 	})
 	config.Parsed.Style.Colors = saved
 	r.Extra["palettes"] = 2
+	historyIndependence(r)
 	r.Sample(map[string]any{"expr": expr{"A", 1, 9, 12, 3, 0}.String(), "layouts": "all sequences up to the bound"})
 	r.Sample(map[string]any{"expr": expr{"B", 14, 13, 5, 2, 3}.String()})
 	r.Extra["expressions"] = nA + nB
